@@ -308,6 +308,25 @@ def r15(ctx, rep):
                                     "the projection in build_x becomes the identity and rounding can leave the box")
     if cmp_found < 1:
         raise AnalysisError("BoundConstraints: the consistency test of the bounds (lb <= ub) was not found")
+    # the fixed-variable mask must contain lb == ub exactly: (lb <= ub) & (|lb - ub| < tol)
+    inl_p = expander(ctx, pinit)
+    fixed_defs = [n for n in ast.walk(pinit.node) if isinstance(n, ast.Assign) and any(isinstance(t, ast.Attribute) and t.attr == "_fixed_idx" for t in n.targets)]
+    if not fixed_defs:
+        raise AnalysisError("Problem.__init__: definition of the fixed-variable mask not found")
+    for fd in fixed_defs:
+        v = inl_p.expand(fd.value, fd)
+        cmps = [c for c in ast.walk(v) if isinstance(c, ast.Compare) and len(c.ops) == 1 and not any(isinstance(x, ast.Call) and (dotted(x.func) or "").split(".")[-1] in ("abs", "absolute") for x in ast.walk(c))]
+        order = [c for c in cmps if (mentions(c.left, "xl", "lb") and mentions(c.comparators[0], "xu", "ub")) or (mentions(c.left, "xu", "ub") and mentions(c.comparators[0], "xl", "lb"))]
+        for c in order:
+            lo_left = mentions(c.left, "xl", "lb") and not mentions(c.left, "xu", "ub")
+            op = type(c.ops[0]).__name__
+            good = (lo_left and op == "LtE") or (not lo_left and op == "GtE")
+            desc = f"{pinit.local}:{fd.lineno} fixed-variable mask uses `{norm(c)}`"
+            if good:
+                rep.ok("R1.5", desc)
+            else:
+                rep.bad("R1.5", desc)
+                rep.finding("R1.5", pinit, norm(fd)[:120], fd.lineno, f"the mask of fixed variables must contain lb == ub (and only consistent pairs): `{norm(c)}` {'excludes exactly equal bounds' if op in ('Lt', 'Gt') else 'selects the inconsistent pairs'}, so a variable with lb = ub is not held at that value (and scaling divides by a zero width)")
     # fixed values are inside their bounds
     fv = [n for n in ast.walk(pinit.node) if isinstance(n, ast.Assign) and any(isinstance(t, ast.Attribute) and t.attr == "_fixed_val" for t in n.targets)]
     if fv:
